@@ -142,6 +142,36 @@ class C09(Prop):
                                        'open ro none 0', 'dump', 'close']
                     cases.append(Case(lines, 'header-defect'))
 
+        # E2. format values that are almost right, and missing format / version / id across the format versions around
+        #     the library's, x 3 modes x Force.  The specification judges them from the property text: a header that
+        #     lacks format = "nix", a version, or (for format versions >= 1.2.0) the id is refused unless Overwrite;
+        #     a complete header is let through exactly by the version gate; with Force nothing is demanded (ANY).
+        def hx(s):
+            return 's:' + (s if isinstance(s, bytes) else s.encode()).hex()
+        formats = ['nix', 'nixx', 'nix2', 'nixio', 'nix ', ' nix', 'nix\n', 'ni', 'n', '', 'NIX', 'Nix', 'niX', 'xin', 'hdf5',
+                   'nix\u00e9', '\u00f1ix', 'nix.', 'nixnix']
+        versions = [(1, 2, 0), (1, 2, 1), (1, 2, 5), (1, 1, 0), (1, 1, 9), (1, 0, 0), (1, 3, 0), (2, 0, 0), (0, 9, 9)]
+        base = ['fs lib', 'open rw none 0', 'blk b1', 'arr b1 a1 4 5', 'close']
+        for fmt in formats:
+            for mode in ('ro', 'rw', 'ow'):
+                for f in (0, 1):
+                    v = rnd.choice(versions) if thorough or rnd.random() < 0.3 else (1, 2, 0)
+                    lines = base + ['hdr fmt=' + hx(fmt)] + (['hdr ver=%d.%d.%d' % v] if v != (1, 2, 0) else []) + \
+                            ['sha0', 'open %s %s %d' % (mode, rnd.choice(COMPS), f), 'dump', 'close', 'sha?']
+                    cases.append(Case(lines, 'format-values'))
+        for v in versions:
+            for d in (None, 'noid', 'noformat', 'noversion'):
+                for mode in ('ro', 'rw', 'ow'):
+                    for f in (0, 1):
+                        lines = base + ['hdr ver=%d.%d.%d' % v] + (['hdr ' + d] if d else []) + \
+                                ['sha0', 'open %s %s %d' % (mode, rnd.choice(COMPS), f), 'dump', 'close', 'sha?']
+                        if mode == 'ow':
+                            lines += ['open ro none 0', 'dump', 'close']
+                        cases.append(Case(lines, 'header-by-version'))
+        for vtxt in ('1.2', '1.2.0.0', '1'):
+            for mode in ('ro', 'rw'):
+                cases.append(Case(base + ['hdr ver=' + vtxt, 'open %s none 0' % mode, 'dump', 'close'], 'header-by-version'))
+
         # F. random walks over the whole command set
         for _ in range(15 * scale if not thorough else 300 * scale):
             lines = ['fs ' + rnd.choice(['missing', 'lib', 'lib', 'plainh5', 'nonh5'])]
